@@ -92,6 +92,23 @@ Theorem C06_cls_form_refuted : exists (T : table) (c : cid) (x : name),
 Proof. exists f31_table, 1, 1%N. vm_compute. repeat split; discriminate. Qed.
 Print Assumptions C06_cls_form_refuted.
 
+(* CPython always puts `object` last (mro_real).  On the domain (an explicitly written `object` is
+   reached last: object_last) every definition the reference lookup selects is the one CPython's
+   order selects.  Outside that sub-domain the class table is wrong - OPEN FINDING "explicit object
+   not last": class Base(object) / class Mixin: def __init__ / class C(Base, Mixin): C().__init__ is
+   answered with object.__init__ (vars(object) merged through Base shadows Mixin.__init__). *)
+Theorem C06_class_lookup_real_partial : forall (T : table) (c : cid) (x : name) (s : site),
+  in_domain T c = true ->
+  get x (class_attrs T c) = Some s -> py_class_lookup_real T c x = Some s.
+Proof. intros T c x s D H. rewrite class_lookup_correct in H. now apply class_lookup_real. Qed.
+Print Assumptions C06_class_lookup_real_partial.
+
+Theorem C06_object_not_last_refuted : exists (T : table) (c : cid) (x : name) (s : site),
+  no_repeated_ancestor T c = true /\ wf T = true /\ object_last T c = false /\
+  py_class_lookup_real T c x = Some s /\ get x (class_attrs T c) <> Some s.
+Proof. exists objfirst_table, 3, 1%N, (1, 5, 8)%N. vm_compute. repeat split; discriminate. Qed.
+Print Assumptions C06_object_not_last_refuted.
+
 (* Defect F5 (pinned tree): InstanceValue._attrs applied the base-INSTANCE tables, which contain
    the base CLASS tables, over the subclass's class table.  Witness:
      class Root:            (module 1, line 1)      row 1
